@@ -146,15 +146,15 @@ impl<'tx> Tx<'tx> {
         }
         let mut freelist = db.inner.freelist.lock()?.clone();
         #[cfg(feature = "verif-hooks")]
-        crate::verif_hooks::yield_point("tx_new:freelist_cloned");
+        {
+            use crate::verif_hooks as vh;
+            vh::yield_point("tx_new:freelist_cloned");
+            vh::before_lock("open_ro_txs", &|| vh::can_lock(&db.inner.open_ro_txs));
+        }
         let mut meta = db.inner.meta()?;
         debug_assert!(meta.valid());
         #[cfg(feature = "verif-hooks")]
-        {
-            use crate::verif_hooks as vh;
-            vh::yield_point("tx_new:meta_read");
-            vh::before_lock("open_ro_txs", &|| vh::can_lock(&db.inner.open_ro_txs));
-        }
+        crate::verif_hooks::yield_point("tx_new:meta_read");
         {
             let mut open_ro_txs = db.inner.open_ro_txs.lock().unwrap();
             if writable {
